@@ -76,22 +76,23 @@ def events_for(darsia, rng, shape, h, tid, integer_h):
     res = darsia.face_to_cell(grid, np.array(u, dtype=float))  # default: cell centre
     ev.append(dict(base, op="f2c", u=u, t=[1] * dim, q=2,
                    res=[[qi(2 * res[..., d].ravel("F")[c]) for d in range(dim)] for c in range(nc)]))
-    # cell -> face averages
+    # cell -> face averages.  One caller-owned field per kind is averaged several times (harmonic, arithmetic, harmonic,
+    # arithmetic): every call has to return the mean of the values the caller holds, whatever was computed before
     for kind in ("scalar", "vector", "tensor"):
-        for mode in ("arithmetic", "harmonic"):
-            if kind == "scalar":
-                arr = np.array([rng.randint(1, 3) for _ in range(nc)], dtype=float).reshape(shape, order="F")
-                v = [int(x) for x in arr.ravel("F")]
-                if rng.random() < 0.5:
-                    arr = arr[..., None]
-            elif kind == "vector":
-                arr = np.array([[rng.randint(1, 3) for _ in range(dim)] for _ in range(nc)], dtype=float).reshape(tuple(shape) + (dim,), order="F")
-                v = [[int(arr[..., d].ravel("F")[c]) for d in range(dim)] for c in range(nc)]
-            else:
-                arr = np.array([[[rng.randint(1, 3) for _ in range(dim)] for _ in range(dim)] for _ in range(nc)], dtype=float).reshape(tuple(shape) + (dim, dim), order="F")
-                v = [[[int(arr[..., a, b].ravel("F")[c]) for b in range(dim)] for a in range(dim)] for c in range(nc)]
-            if kind == "vector" and dim == 1:
-                continue  # shape (..., 1) is documented as the scalar form
+        if kind == "scalar":
+            arr = np.array([rng.randint(1, 3) for _ in range(nc)], dtype=float).reshape(shape, order=rng.choice(["F", "C"]))
+            v = [int(x) for x in arr.ravel("F")]
+            if rng.random() < 0.5:
+                arr = arr[..., None]
+        elif kind == "vector":
+            arr = np.array([[rng.randint(1, 3) for _ in range(dim)] for _ in range(nc)], dtype=float).reshape(tuple(shape) + (dim,), order="F")
+            v = [[int(arr[..., d].ravel("F")[c]) for d in range(dim)] for c in range(nc)]
+        else:
+            arr = np.array([[[rng.randint(1, 3) for _ in range(dim)] for _ in range(dim)] for _ in range(nc)], dtype=float).reshape(tuple(shape) + (dim, dim), order="F")
+            v = [[[int(arr[..., a, b].ravel("F")[c]) for b in range(dim)] for a in range(dim)] for c in range(nc)]
+        if kind == "vector" and dim == 1:
+            continue  # shape (..., 1) is documented as the scalar form
+        for mode in ("harmonic", "arithmetic", "harmonic", "arithmetic"):
             res = darsia.cell_to_face_average(grid, arr, mode)
             ev.append(dict(base, op="c2f", kind=kind, mode=mode, v=v, res=[qi(60 * x, 1e-7) for x in res]))
     # tangential and full reconstruction
